@@ -105,7 +105,7 @@ def plan_for(prop, tier):
                 "storage faults are explicit byte transforms of a well-formed base (shipped file or synthetic recipe); stream faults are injected by SimSource",
                 "memory safety / UB are judged by ASan and by UBSan handlers wrapped at link time (every report is attributed to its run, never de-duplicated)",
                 "reads of uninitialised automatics are judged by the digest differential between g++ -ftrivial-auto-var-init=zero and =pattern builds, heap by M_PERTURB between two loads in one process; MSan is unusable here",
-                "termination is judged by a cap on stream calls, a scheduler step cap and a CPU-time watchdog (20 s against a typical 0.5 ms)",
+                "termination is judged by a cap on stream calls, a scheduler step cap and a CPU-time watchdog (6 s against a typical 1 ms)",
                 "loads whose header asks for more than the heap budget (8 or 64 MiB) are skipped under the property's memory proviso and counted"],
             rule="cases: a base image (598 shipped files, synthetic well-formed recipes, synthetic self-consistent out-of-spec recipes) with 0-3 storage faults "
                  "(trunc, flip, set, zero/ff runs, splice, dup/drop block, header-count / type-index / abbr-index / utoff / isdst / 8-byte-time edits, version, footer from the POSIX-TZ grammar "
